@@ -52,6 +52,8 @@ TRY_ARRAY_CONVERT = "<ciborium::value::Value as util::ValueTryAs>::try_as_array_
 TO_ARRAY = "util::to_cbor_array"
 TRY_BRANCH = "core::ops::try_trait::Try::branch"
 X = ("x",)
+CAPACITY_ONLY = {"alloc::vec::Vec::<T, A>::reserve", "alloc::vec::Vec::<T, A>::reserve_exact", "alloc::vec::Vec::<T, A>::shrink_to_fit",
+                 "alloc::vec::Vec::<T, A>::shrink_to"}
 
 
 def unknown(why):
@@ -91,7 +93,10 @@ def subst_hole(t, x, by=X):
     if k in ("field", "variant"):
         return (k, subst_hole(t[1], x, by), t[2])
     if k in ("deref", "tryok", "discr"):
-        return (k, subst_hole(t[1], x, by))
+        r = subst_hole(t[1], x, by)
+        if k == "deref" and r[0] == "ref":
+            return r[1]         # `*&a` is a
+        return (k, r)
     if k == "ref":
         return (k, subst_hole(t[1], x, by)) + tuple(t[2:])
     if k == "cast":
@@ -223,6 +228,13 @@ class Seq:
         if depth > 10:
             return unknown("iterator chain too deep")
         if is_call(it, INTO_ITER) or (is_call(it) and it[1] in SLICE_ITER):
+            src = it[2][0]
+            while src[0] in ("ref", "deref") or (src[0] == "cast" and src[1] == "PointerCoercion"):
+                src = src[1] if src[0] != "cast" else src[2]
+            if src[0] == "array":
+                # `[a, b].iter()` / `[a, b].into_iter()`: exactly these values (by reference for iter())
+                byref = it[1] in SLICE_ITER
+                return ("lit", tuple(("ref", x, False) if byref else x for x in src[1]))
             return self.of_value(it[2][0], depth + 1, at)
         if is_call(it) and it[1] in ITER_BYREF:
             return self.of_iter(it[2][0], depth + 1, at)
@@ -232,6 +244,8 @@ class Seq:
             f = apply_fn(self.prog, it[2][1], [X])
             if f is None and it[2][1][0] == "fn":
                 f = ("call", it[2][1][2], (X,), ("<fn-item>", it[2][1][1]))    # a named function used as the mapper
+            if f is None and it[2][1][0] == "param":
+                f = ("call", "<apply>", (it[2][1], X))      # a caller-supplied function: `f(x)`, whatever f is
             if f is None:
                 return unknown("mapper %s" % show(it[2][1])[:60])
             return ("map", strip_sites_f(f), self.of_iter(it[2][0], depth + 1, at))
@@ -344,9 +358,10 @@ class Seq:
 
     def _lift_try(self, s):
         """collect::<Result<Vec<_>, _>>() of a sequence of Results: the Ok payloads (first Err aborts)"""
+        from .prov import mk_tryok
         s = normalize(s)
         if s[0] == "map":
-            return ("map", ("tryok", s[1]), s[2])
+            return ("map", mk_tryok(self.prog, s[1]), s[2])
         return ("map", ("tryok", X), s)
 
     def _convert(self, call, depth):
@@ -518,8 +533,8 @@ class Seq:
             if loops_e:
                 return unknown("reverse in a loop")
             return ("rev", cur)
-        if name in (VL.DEREF_MUT,):
-            return cur
+        if name in (VL.DEREF_MUT,) or name in CAPACITY_ONLY:
+            return cur          # changes the allocation, not the elements
         if name == SPLIT_OFF:
             a1 = pv.operand_term(t["args"][1], e["bb"], "term")
             if a1[0] == "const" and isinstance(a1[1], int) and not loops_e:
@@ -564,7 +579,8 @@ class Seq:
             return unknown("push under a condition inside the loop")
         # the back edge must be reachable only through the push (exactly once per iteration)
         latches = [p for p in fn.cfg.pred[header] if p in body]
-        if not all(fn.cfg.dominates(push_bb, p) or p == push_bb for p in latches):
+        from .guards import back_edges_taken
+        if set(back_edges_taken(fn, header, {push_bb}, header)) & set(latches):
             return unknown("an iteration can skip the push")
         nterm = pv.call_term(nbb)
         x = ("field", ("variant", nterm, "Some"), "0")
